@@ -14,7 +14,7 @@ import BtcVerif.Proofs.Coherence
   1. legacy signature operations (C16 ↔ C08)
      * `sigops_models`          Model.Script.getSigOpCount s false = ok (Model.BlockCheck.sigOpCount s)
      * `sigops_specs`           Spec.BlockCheck.sigOps s = Spec.Script.sigOpCount false s
-     * `getOp_script_ref`, `getOp_blockcheck`   the three transcriptions of Core's GetScriptOp
+     * `getOp_script_ref`, `getOp_blockcheck`, `getOp_sighash`   the four transcriptions of Core's GetScriptOp
   2. serialisation and identifiers (C15/C16 ↔ C01, C02, C09, C03)
      * `wfTx_txRange`, `wfBlock_blockRange`     C01's WFTx / WFBlock imply TxRange / BlockRange
      * `ser_lemmas_agree`       the SerSpec lemmas are C01's `ser_eq_spec` / `ser_stripped_eq_spec` on WFTx
@@ -33,6 +33,8 @@ import BtcVerif.Proofs.Coherence
   5. FindAndDelete (C03 ↔ C06)
      * `findAndDelete_models`   for every script and pattern
      * `findAndDelete_ref`      both models against the reference on push patterns
+     * `codesep_specs`          Ref.findAndDelete s [OP_CODESEPARATOR] = Spec.Sighash.scriptCodeNoSep s, every s
+     * `codesep_model_ref`      C03's model of FindAndDelete(script, [CODESEPARATOR]) is C06's reference
   6. script numbers (C08 ↔ C06)
      * `numEncode_specs`, `numDecode_specs`   for every integer / byte string
      * `bn2vch_models` (**differ** from 2³² bytes on), `vch2bn_models`
@@ -71,6 +73,15 @@ theorem getOp_script_ref (s : Bytes) : Spec.Script.getOp s = Spec.Script.Ref.get
 theorem getOp_blockcheck (s : Bytes) :
     Spec.BlockCheck.getOp s = (Spec.Script.getOp s).map (fun x => (x.1, x.2.2)) :=
   CoherenceProofs.getOp_blockcheck s
+
+/-- C03/C04's GetOp (opcode byte and size of the operation) against C06's (opcode, data, rest) -/
+theorem getOp_sighash (b : UInt8) (r : Bytes) :
+    match Spec.Script.Ref.getOp (b :: r) with
+    | none => Spec.Sighash.getOp (b :: r) = none
+    | some (o, _, rest) =>
+        ∃ n, Spec.Sighash.getOp (b :: r) = some (b, n) ∧ 1 ≤ n ∧ n ≤ (b :: r).length ∧
+          rest = (b :: r).drop n ∧ o = b.toNat :=
+  CoherenceProofs.sighash_getOp b r
 
 /-! ### 2. serialisation and identifiers -/
 
@@ -211,6 +222,19 @@ theorem findAndDelete_ref (script sig : Bytes) (h : sig.length < 2 ^ 32)
   cases hq : Model.Sighash.findAndDelete script (Spec.Script.Ref.pushEnc sig) with
   | ok r => rw [hq] at h1; simp only [Except.ok.injEq] at h1; rw [h1]
   | error e => rw [hq] at h1; cases h1
+
+/-- removing the OP_CODESEPARATOR operations: Core's `FindAndDelete(script, [OP_CODESEPARATOR])` as
+    transcribed for C06 and the `SerializeScriptCode` walk transcribed for C03 give the same bytes
+    for EVERY byte string (where tokenisation stops both keep the remaining bytes verbatim) -/
+theorem codesep_specs (s : Bytes) :
+    Spec.Script.Ref.findAndDelete s [0xab] = Spec.Sighash.scriptCodeNoSep s :=
+  CoherenceProofs.fad_codesep s.length s rfl
+
+/-- … so on scripts that parse C03's *model* of `FindAndDelete(script, CScript([OP_CODESEPARATOR]))`
+    returns C06's reference result -/
+theorem codesep_model_ref (s : Bytes) (h : Spec.Sighash.parses s) :
+    Model.Sighash.findAndDelete s [0xab] = .ok (Spec.Script.Ref.findAndDelete s [0xab]) := by
+  rw [codesep_specs]; exact C03.findAndDelete_codesep s h
 
 /-! ### 6. script numbers -/
 
